@@ -79,7 +79,12 @@ Sigs == <<  <<>>,
             << [n |-> "inner", t |-> "Nested"] >>,
             << [n |-> "data", t |-> "Binary"], [n |-> "x", t |-> "String"] >>,
             \* an integer wider than 64 bits, written as a JSON number by the part's own encoder
-            << [n |-> "big", t |-> "U128"], [n |-> "n", t |-> "u32"] >> >>
+            << [n |-> "big", t |-> "U128"], [n |-> "n", t |-> "u32"] >>,
+            \* argument types with richer *syntax* (the macros copy the type tokens into the message types):
+            \* a fully qualified path, an array, a map, nested generics with a tuple, a box, a negative integer, the unit type
+            << [n |-> "coin", t |-> "CoinQ"], [n |-> "arr", t |-> "Arr4"] >>,
+            << [n |-> "m", t |-> "MapSU"], [n |-> "p", t |-> "OptVecPair"] >>,
+            << [n |-> "b", t |-> "BoxNested"], [n |-> "i", t |-> "I64"], [n |-> "u", t |-> "Unit"] >> >>
 
 Mk(name, kind, j) ==
     [name |-> name, kind |-> kind, args |-> Sigs[Mod(j, Len(Sigs)) + 1],
